@@ -148,13 +148,17 @@ func CeilFrame(refTime, refTimescale, frameDur, audioTimescale uint64) uint64 {
 
 // AudioDursFollowing returns the audio segment grid that follows the given video grid the way packagers do:
 // audio segment k ends at the first frame boundary at or after the end of video segment k. lastDeltaFrames is
-// added to the last segment (negative: audio loop shorter than that, positive: longer).
+// added to the last segment (negative: audio loop shorter than that, positive: longer). Every segment keeps at
+// least one frame.
 func AudioDursFollowing(videoDurs []uint64, videoTS, audioTS, frameDur uint32, lastDeltaFrames int) []uint64 {
 	out := make([]uint64, len(videoDurs))
 	var vEnd, aPrev uint64
 	for i, d := range videoDurs {
 		vEnd += d
 		aEnd := CeilFrame(vEnd, uint64(videoTS), uint64(frameDur), uint64(audioTS))
+		if aEnd <= aPrev { // video segment shorter than one audio frame: keep at least one frame per VoD segment
+			aEnd = aPrev + uint64(frameDur)
+		}
 		out[i] = aEnd - aPrev
 		aPrev = aEnd
 	}
@@ -318,35 +322,43 @@ func GenSamplePayload(repID string, idx uint64) []byte {
 	return b
 }
 
-// DecodeGenPayload inverts GenSamplePayload / SampleData for audio (16 bytes) and video (21 bytes:
-// 4-byte NALU length, NALU header, identity) sample data. The check bytes are not verified here (the id is
+// DecodeGenPayload inverts GenSamplePayload / SampleData for audio (16 bytes) and video (28 bytes:
+// 4-byte NALU length, 8 bytes of slice NALU start, identity) sample data. The check bytes are not verified here (the id is
 // not known); use GenRep.SampleData for an exact comparison.
 func DecodeGenPayload(data []byte) (tag uint32, idx uint64, ok bool) {
 	switch len(data) {
 	case 16:
-	case 21:
-		if binary.BigEndian.Uint32(data[0:4]) != 17 {
+	case 28:
+		if binary.BigEndian.Uint32(data[0:4]) != 24 {
 			return 0, 0, false
 		}
-		data = data[5:]
+		data = data[12:]
 	default:
 		return 0, 0, false
 	}
 	return binary.BigEndian.Uint32(data[0:4]), binary.BigEndian.Uint64(data[4:12]), true
 }
 
+// genIDRStart / genPStart are the first bytes (NALU header + complete slice header) of a real IDR and a real P
+// slice coded against genSPS/genPPS, so that the sample parses as an AVC access unit (needed by the cbcs
+// subsample encryption of the eccp_cbcs URL option).
+var (
+	genIDRStart = []byte{0x65, 0x88, 0x84, 0x00, 0x4f, 0xfe, 0xde, 0x23}
+	genPStart   = []byte{0x41, 0x9a, 0x21, 0x6c, 0x44, 0xff, 0xc0, 0xa6}
+)
+
 // SampleData is the mdat payload of the sample with global index idx. first says whether it is the first
-// sample of its VoD segment (video: IDR NALU header instead of non-IDR).
+// sample of its VoD segment (video: IDR slice start instead of P slice start).
 func (r GenRep) SampleData(idx uint64, first bool) []byte {
 	id := GenSamplePayload(r.ID, idx)
 	switch r.Kind {
 	case "video":
-		out := make([]byte, 0, 21)
-		out = append(out, 0, 0, 0, 17)
+		out := make([]byte, 0, 28)
+		out = append(out, 0, 0, 0, 24)
 		if first {
-			out = append(out, 0x65) // IDR slice
+			out = append(out, genIDRStart...)
 		} else {
-			out = append(out, 0x41) // non-IDR slice
+			out = append(out, genPStart...)
 		}
 		return append(out, id...)
 	case "stpp":
@@ -380,7 +392,7 @@ func (r GenRep) stppDoc(k int, shiftMS uint64) []byte {
 
 // PayloadHash is the SHA-256 (hex) over the concatenated data of the given samples, i.e. the value
 // ParseMediaSegment(...).Payload has for a segment made of exactly these samples (video: a sample that is the
-// first one of its VoD segment carries the IDR header byte, as written by WriteAsset).
+// first one of its VoD segment carries the IDR slice start, as written by WriteAsset).
 func (r GenRep) PayloadHash(idxs []uint64) string {
 	firsts := map[uint64]bool{}
 	for k := 0; k < r.N(); k++ {
